@@ -55,7 +55,7 @@ ASSUMPTIONS = ["the reference grammar: spec := side '->' side; side := '...' | a
                "shape() is called with internal_shapes for every output name whenever the output has an internal index",
                "index-name symmetry: the heavy shape/index sweeps use index names canonical by first appearance; the 23 other "
                "injective namings are checked with one generic size assignment each"]
-BUDGET = {"quick": 120.0, "thorough": 900.0}
+BUDGET = {"quick": 200.0, "thorough": 1200.0}
 
 NAMES = "ijkl"
 IN_NAMES = ("a", "b", "c")
